@@ -86,6 +86,33 @@ func mkStore(kind string) (*storePair, error) {
 	return nil, fmt.Errorf("unknown store kind %s", kind)
 }
 
+// failingSource: a LogStore whose FirstIndex / LastIndex / GetLog fails with an I/O error
+type failingSource struct {
+	raft.LogStore
+	mode string
+}
+
+func (f *failingSource) FirstIndex() (uint64, error) {
+	if f.mode == "first" {
+		return 0, errors.New("injected: FirstIndex failed")
+	}
+	return f.LogStore.FirstIndex()
+}
+
+func (f *failingSource) LastIndex() (uint64, error) {
+	if f.mode == "last" {
+		return 0, errors.New("injected: LastIndex failed")
+	}
+	return f.LogStore.LastIndex()
+}
+
+func (f *failingSource) GetLog(i uint64, l *raft.Log) error {
+	if f.mode == "get" && i >= 3 {
+		return errors.New("injected: GetLog failed")
+	}
+	return f.LogStore.GetLog(i, l)
+}
+
 func fnvDigest(logs []*raft.Log) uint64 {
 	h := uint64(0)
 	add := func(b byte) { h = (h ^ uint64(b)) * 1099511628211 }
@@ -224,6 +251,44 @@ func execMigrateOp(op, srcKind, dstKind string) string {
 			sz = append(sz, fmt.Sprint(s))
 		}
 		return fmt.Sprintf("%s %d %d %d %d batches=%s progress=%s", resClass(err), first, last, len(got), fnvDigest(got), strings.Join(sz, ","), closedFn())
+	case "copyfail":
+		// copyfail <first|last|get|closed> <prog>: the source fails (I/O error on an index lookup or a read, or it is a
+		// WAL that has been closed): CopyLogs must return the error and still close the progress channel
+		src, err := mkStore(srcKind)
+		if err != nil {
+			return "setup-err " + err.Error()
+		}
+		defer src.cleanup()
+		dst, err := mkStore(dstKind)
+		if err != nil {
+			return "setup-err " + err.Error()
+		}
+		defer dst.cleanup()
+		var logs []*raft.Log
+		for i := uint64(1); i <= 5; i++ {
+			logs = append(logs, &raft.Log{Index: i, Term: 1, Data: []byte("x")})
+		}
+		if err := src.log.StoreLogs(logs); err != nil {
+			return "setup-err " + err.Error()
+		}
+		mode := ws[1]
+		if mode == "closed" && srcKind != "wal" {
+			mode = "first" // only the WAL has a closed state that makes every call fail
+		}
+		var source raft.LogStore = &failingSource{LogStore: src.log, mode: mode}
+		if mode == "closed" {
+			if c, ok := src.log.(interface{ Close() error }); ok {
+				c.Close()
+				source = src.log
+			}
+		}
+		prog, closedFn := mkProgress(ws[2])
+		var pch chan<- string
+		if prog != nil {
+			pch = prog
+		}
+		err = migrate.CopyLogs(context.Background(), dst.log, source, 64, pch)
+		return fmt.Sprintf("%s progress=%s", resClass(err), closedFn())
 	case "copystable":
 		src, err := mkStore(srcKind)
 		if err != nil {
@@ -361,6 +426,9 @@ func migMonitor(ops, impl []string) []Violation {
 		if strings.HasSuffix(out, "progress=open") {
 			add("progress channel not closed on return", out)
 		}
+		if ws[0] == "copyfail" && !strings.HasPrefix(out, "setup-err") && !strings.HasPrefix(out, "err") {
+			add("CopyLogs returned nil although the source failed", out)
+		}
 		if ws[0] != "copylogs" || strings.HasPrefix(out, "setup-err") {
 			continue
 		}
@@ -465,6 +533,7 @@ func suiteMigrate(seed uint64, tier string) *Report {
 			scancel = fmt.Sprint(cr.Intn(5))
 		}
 		c.Ops = append(c.Ops, strings.TrimRight(fmt.Sprintf("copystable %s %s %s %s", pol, scancel, pick(cr, []string{"p0", "p1", "p2"}), strings.Join(st, " ")), " "))
+		c.Ops = append(c.Ops, fmt.Sprintf("copyfail %s %s", pick(cr, []string{"first", "last", "get", "closed"}), pick(cr, []string{"p0", "p1", "p2"})))
 		c.Impl = c.Exec(c.Ops)
 		c.NonTrivial = nlogs > 0
 		bbc := "small"
